@@ -444,10 +444,11 @@ const (
 	opDefaults
 	opGetErrors
 	opPrint
+	opEnum
 	opCount
 )
 
-var c19OpNames = []string{"ToEntry", "Find", "Namespace", "InstantiatingModule", "FindModuleByNamespace", "ReadOnly", "DefaultValues", "GetErrors", "Print"}
+var c19OpNames = []string{"ToEntry", "Find", "Namespace", "InstantiatingModule", "FindModuleByNamespace", "ReadOnly", "DefaultValues", "GetErrors", "Print", "EnumAccessors"}
 
 func c19Walk(root *yang.Entry, pfx string) []c19Node {
 	var out []c19Node
@@ -479,6 +480,8 @@ func c19Nodes(ms *yang.Modules) []c19Node {
 	return all
 }
 
+var errScribble = fmt.Errorf("scribbled by a reader")
+
 func c19Errs(es []error) string {
 	var s []string
 	for _, e := range es {
@@ -505,20 +508,69 @@ func c19Run(ms *yang.Modules, q *c19Query) string {
 	case opReadOnly:
 		return fmt.Sprint(q.ctx.ReadOnly())
 	case opDefaults:
+		dv := q.ctx.DefaultValues()
 		d, ok := q.ctx.SingleDefaultValue()
-		return fmt.Sprintf("%q/%q/%v", q.ctx.DefaultValues(), d, ok)
+		r := fmt.Sprintf("%q/%q/%v", dv, d, ok)
+		// what an accessor returns belongs to the caller: use it like a private slice
+		for i := range dv {
+			dv[i] = "scribbled-by-a-reader"
+		}
+		sort.Strings(dv)
+		return r
 	case opGetErrors:
-		return c19Errs(q.ctx.GetErrors())
+		es := q.ctx.GetErrors()
+		r := c19Errs(es)
+		for i := range es {
+			es[i] = errScribble
+		}
+		return r
 	case opPrint:
 		var b bytes.Buffer
 		q.ctx.Print(&b)
+		return b.String()
+	case opEnum:
+		var b bytes.Buffer
+		var rec func(t *yang.YangType, d int)
+		rec = func(t *yang.YangType, d int) {
+			if t == nil || d > 6 {
+				return
+			}
+			for _, et := range []*yang.EnumType{t.Enum, t.Bit} {
+				if et == nil {
+					continue
+				}
+				names, values, nm, vm := et.Names(), et.Values(), et.NameMap(), et.ValueMap()
+				fmt.Fprintf(&b, "%q %v", names, values)
+				for _, n := range names {
+					fmt.Fprintf(&b, " %s=%d/%s/%v", n, nm[n], vm[nm[n]], et.IsDefined(n))
+				}
+				for i := range names {
+					names[i] = "scribbled"
+				}
+				for i := range values {
+					values[i] = -77
+				}
+				for k := range nm {
+					nm[k] = -77
+					delete(vm, -77)
+				}
+				nm["scribbled"] = 1
+				vm[-78] = "scribbled"
+			}
+			for _, u := range t.Type {
+				rec(u, d+1)
+			}
+		}
+		rec(q.ctx.Type, 0)
 		return b.String()
 	}
 	return "?"
 }
 
-// queries with their sequential answers.  Nothing here may touch the namespace memo of ms: the answers of
-// InstantiatingModule / FindModuleByNamespace come from the twin set (names) and from ms.Modules (pointers).
+// queries with their sequential answers.  The answers are computed on the TWIN set (same sources, processed
+// separately, queried sequentially): nothing warms up a lazily built structure of ms before the concurrent
+// phase, and nothing touches its namespace memo.  Pointer answers are carried over by position in the walk.
+// Only ToEntry is called once on ms itself (the claim is the cache hit).
 func c19Queries(ms, twin *yang.Modules) ([][]c19Query, int) {
 	nodes := c19Nodes(ms)
 	tnodes := c19Nodes(twin)
@@ -527,74 +579,73 @@ func c19Queries(ms, twin *yang.Modules) ([][]c19Query, int) {
 	}
 	byOp := make([][]c19Query, opCount)
 	add := func(q c19Query) { byOp[q.op] = append(byOp[q.op], q) }
-	index := map[*yang.Entry]int{}
-	for i, n := range nodes {
-		index[n.e] = i
+	tindex := map[*yang.Entry]int{}
+	for i, n := range tnodes {
+		tindex[n.e] = i
+	}
+	ptr := func(e *yang.Entry) string { return fmt.Sprintf("%p", e) }
+	// Find on the twin; the query is kept when it finds a node of the walk (an existing node)
+	find := func(ci int, path string, mustBe int) {
+		tq := c19Query{op: opFind, ctx: tnodes[ci].e, arg: path}
+		res := tnodes[ci].e.Find(tq.arg)
+		j, ok := tindex[res]
+		if res == nil || !ok || (mustBe >= 0 && j != mustBe) {
+			return
+		}
+		add(c19Query{op: opFind, ctx: nodes[ci].e, arg: path, want: ptr(nodes[j].e)})
 	}
 	nsSeen := map[string]bool{}
 	for i, n := range nodes {
-		e := n.e
+		e, te := n.e, tnodes[i].e
 		if e.Node != nil {
 			q := c19Query{op: opToEntry, ctx: e}
 			q.want = c19Run(ms, &q) // first call (may fill the cache); the concurrent calls are hits
 			add(q)
 		}
-		// Find: absolute (with and without prefix) from anywhere in the same tree, relative from the parent
 		if len(n.names) > 0 {
 			abs := "/" + strings.Join(n.names, "/")
 			pabs := "/" + n.pfx + ":" + strings.Join(n.names, "/")
-			for _, ctx := range []*yang.Entry{n.root, e, nodes[(i*7+3)%len(nodes)].e, nodes[(i*13+5)%len(nodes)].e} {
-				var paths []string
-				if nodes[index[ctx]].root == n.root {
-					paths = append(paths, abs) // unprefixed: stays in the tree of the context entry
+			for _, ci := range []int{i - len(n.names), i, (i*7 + 3) % len(nodes), (i*13 + 5) % len(nodes)} {
+				if ci < 0 {
+					continue
+				}
+				if nodes[ci].root == n.root {
+					find(ci, abs, i) // unprefixed: stays in the tree of the context entry
 				}
 				// prefixed: only when the prefix, read where the context node was defined, names the target's
 				// module (an unknown prefix makes Find record an error on the tree: not an existing-node lookup)
-				if ctx.Node != nil {
-					if m := yang.FindModuleByPrefix(ctx.Node, n.pfx); m != nil && yang.ToEntry(m) == n.root {
-						paths = append(paths, pabs)
-					}
-				}
-				for _, p := range paths {
-					q := c19Query{op: opFind, ctx: ctx, arg: p}
-					q.want = c19Run(ms, &q)
-					if q.want == fmt.Sprintf("%p", e) {
-						add(q)
+				if tc := tnodes[ci].e; tc.Node != nil {
+					if m := yang.FindModuleByPrefix(tc.Node, n.pfx); m != nil && yang.ToEntry(m) == tnodes[i].root {
+						find(ci, pabs, i)
 					}
 				}
 			}
 			if e.Parent != nil {
-				for _, p := range []string{n.names[len(n.names)-1], "./" + n.names[len(n.names)-1], "../" + e.Parent.Name + "/" + n.names[len(n.names)-1]} {
-					if e.Parent.Parent == nil && strings.HasPrefix(p, "../") {
-						continue
+				if pi, ok := tindex[te.Parent]; ok {
+					last := n.names[len(n.names)-1]
+					for _, p := range []string{last, "./" + last, "../" + e.Parent.Name + "/" + last} {
+						if e.Parent.Parent == nil && strings.HasPrefix(p, "../") {
+							continue
+						}
+						find(pi, p, i)
 					}
-					q := c19Query{op: opFind, ctx: e.Parent, arg: p}
-					q.want = c19Run(ms, &q)
-					if q.want == fmt.Sprintf("%p", e) {
-						add(q)
-					}
+					find(i, "..", pi)
 				}
-				q := c19Query{op: opFind, ctx: e, arg: ".."}
-				q.want = c19Run(ms, &q)
-				add(q)
 			}
 		}
-		for _, op := range []int{opNamespace, opReadOnly, opDefaults} {
-			q := c19Query{op: op, ctx: e}
-			q.want = c19Run(ms, &q)
-			add(q)
-		}
+		ops := []int{opNamespace, opReadOnly, opDefaults}
 		if len(n.names) <= 1 {
-			for _, op := range []int{opGetErrors, opPrint} {
-				q := c19Query{op: op, ctx: e}
-				q.want = c19Run(ms, &q)
-				add(q)
-			}
+			ops = append(ops, opGetErrors, opPrint)
 		}
-		// namespace -> module: expected from the twin
-		tq := c19Query{op: opInstMod, ctx: tnodes[i].e}
-		add(c19Query{op: opInstMod, ctx: e, want: c19Run(twin, &tq)})
-		ns := e.Namespace().Name
+		if e.Type != nil {
+			ops = append(ops, opEnum)
+		}
+		ops = append(ops, opInstMod)
+		for _, op := range ops {
+			tq := c19Query{op: op, ctx: te}
+			add(c19Query{op: op, ctx: e, want: c19Run(twin, &tq)})
+		}
+		ns := te.Namespace().Name
 		if !nsSeen[ns] {
 			nsSeen[ns] = true
 			tm, terr := twin.FindModuleByNamespace(ns)
@@ -655,8 +706,11 @@ func c19Readers(iters int, seed int64, repo string) int {
 				<-start
 				for k := 0; k < opsPer; k++ {
 					op := r.Intn(opCount)
-					if k < 6 { // everybody starts with namespace -> module lookups on the cold memo
+					switch { // everybody starts with namespace -> module lookups on the cold memo,
+					case k < 4: // then with first-time prints of whole modules
 						op = opInstMod + k%2
+					case k < 7:
+						op = opPrint
 					}
 					qs := byOp[op]
 					if len(qs) == 0 {
